@@ -796,6 +796,19 @@ def do_c13():
             if (abs(back[0] - dr) > 1e-9 * (1 + abs(dr)) or abs(wrap(back[1] - phi0)) > 1e-9 or abs(back[2] - kappa) > 1e-9 * abs(kappa)
                     or abs(back[3] - dz) > 1e-9 * (1 + abs(dz)) or abs(back[4] - tanl) > 1e-9 * (1 + abs(tanl))):
                 report(f"C13:roundtrip:{sgn}:{nz}:{fe}", "helix built from its own position/momentum/charge/pivot differs", {"par": par, "pivot": p0, "back": back})
+        # position / momentum held in single precision (float32 columns, e.g. a slimmed ntuple): the array constructor gives what the object
+        # constructor gives from the SAME numbers - in particular the same sign of dr (tolerances at the precision of the input)
+        if i % 6 == 2 and abs(dr) > 0.05 and abs(dr) < 0.5 * abs(ALPHA / kappa):
+            bump("physics-ctor:float32-inputs")
+            X = [np.float32(v) for v in (h.position.x, h.position.y, h.position.z)]; M = [np.float32(v) for v in (h.momentum.px, h.momentum.py, h.momentum.pz)]
+            ho32 = p3.helix_obj(position=tuple(float(v) for v in X), momentum=tuple(float(v) for v in M), charge=h.charge, pivot=tuple(p0))
+            for nm32, pos32, mom32 in (("flat", ak.zip({"x": np.array([X[0]] * 2), "y": np.array([X[1]] * 2), "z": np.array([X[2]] * 2)}, with_name="Vector3D"),
+                                        ak.zip({"px": np.array([M[0]] * 2), "py": np.array([M[1]] * 2), "pz": np.array([M[2]] * 2)}, with_name="Momentum3D")),):
+                ha32 = p3.helix_awk(position=pos32, momentum=mom32, charge=ak.Array([h.charge, h.charge]), pivot=tuple(p0)); n_eval += 1
+                g32 = [float(ha32[f][1]) for f in FIELDS5]; w32 = pars(ho32); sc32 = 1e-4 * (1 + abs(ALPHA / kappa) + abs(dr) + max(map(abs, p0)))
+                if (abs(g32[0] - w32[0]) > sc32 or abs(wrap(g32[1] - w32[1])) > 1e-4 or abs(g32[2] - w32[2]) > 1e-4 * abs(w32[2]) or abs(g32[3] - w32[3]) > sc32 or abs(g32[4] - w32[4]) > 1e-4 * (1 + abs(w32[4]))):
+                    report(f"C13:container-forms-differ:physics-constructor:float32-inputs:{'dr-sign' if g32[0] * w32[0] < 0 else 'values'}",
+                           f"helix_awk(position, momentum, charge) with float32 columns gives {g32}; helix_obj with the same numbers gives {w32}", {"par": par, "pivot": p0})
     samples.append({"helix": par, "pivot": p0})
 
 # ------------------------------------------------------------------------------------------------ C07
